@@ -370,14 +370,22 @@ func runGoNode(rc *sk.RunCtx, focus string) {
 			roles++
 			s.spawn(fmt.Sprintf("n%d.cm", i), func() { n.cmTick() })
 		}
-		if tp.Chance(1, 4) {
+		ctlOdds := 4
+		if focus == "C29" {
+			ctlOdds = 2 // new handshakes (index allocations) while others arrive
+		}
+		if tp.Chance(1, ctlOdds) {
 			roles++
 			peer := mw.nodes[(i+1)%len(mw.nodes)].vpnAddr()
 			if isEndpoint && tp.Chance(2, 3) {
 				peer = mw.nodes[other(i)].vpnAddr()
 			}
 			ctl := mw.control[i]
-			switch tp.Choose(4) {
+			ck := tp.Choose(4)
+			if focus == "C29" && tp.Chance(1, 2) {
+				ck = 2
+			}
+			switch ck {
 			case 0:
 				mayDrop = true
 				lo := tp.Chance(1, 2)
